@@ -117,6 +117,13 @@ def run(ctx):
              'on wait failure', floor=14)
     for fam in SA:
         call_result(ctx, CLIENT[fam], 'C09.R6')
+    ctx.rule('C09.R8', 'engine.io events are wired to the three handlers; '
+             '_send_packet hands every frame to the transport; call() emits '
+             'its own event/data/namespace with a callback', floor=8)
+    msgpath.wiring(ctx, 'BaseClient', 'C09.R8')
+    for fam in SA:
+        msgpath.send_frames(ctx, CLIENT[fam], 'C09.R8')
+        msgpath.call_forwarding(ctx, CLIENT[fam], False, 'C09.R8')
     ctx.rule('C09.R7', 'dispatch passes data[0] and *data[1:]', floor=2)
     for fam in SA:
         r7_dispatch(ctx, fam)
@@ -142,5 +149,10 @@ def run(ctx):
     ctx._cur = 'C13.R3'
     for cname in ('Client', 'AsyncClient'):
         c13.r3_trigger(ctx, cname, False)
+    ctx.rule('C13.R4', 'class-based client namespaces hand the method\'s '
+             'result back (it becomes the ACK payload) (shared rule)',
+             floor=6)
+    for cname in ('ClientNamespace', 'AsyncClientNamespace'):
+        c13.r4_namespace_trigger(ctx, cname)
     ctx.assume('exactly-once over arbitrary packet sequences is reduced to '
                'one dispatch / one ACK per packet path')
